@@ -8,6 +8,7 @@ import (
 	"hash/fnv"
 	"os"
 	"path/filepath"
+	"runtime"
 	"sort"
 	"strconv"
 	"sync"
@@ -303,11 +304,24 @@ func Prop[C any](t *testing.T, property, test string, gen func(*rapid.T) C, chec
 	r := Get(property, test)
 	rapid.Check(t, func(rt *rapid.T) {
 		c := gen(rt)
-		f := check(c)
+		f := Guard(func() *Failure { return check(c) })
 		nt, cl := classify(c)
 		r.Case(c, nt, cl...)
 		r.Report(rt, c, f)
 	})
+}
+
+// Guard turns a panic of the code under test into a judged failure (with the top of the stack as signature
+// material), so that a crash is reported with a replay file instead of killing the shard.
+func Guard(f func() *Failure) (out *Failure) {
+	defer func() {
+		if r := recover(); r != nil {
+			buf := make([]byte, 6000)
+			buf = buf[:runtime.Stack(buf, false)]
+			out = Failf("panic", "panic: %v\n%s", r, buf)
+		}
+	}()
+	return f()
 }
 
 // Replay re-executes the case of $VERIF_REPLAY without rapid.
@@ -320,7 +334,7 @@ func Replay[C any](t *testing.T, property, test string, check func(C) *Failure) 
 	if !ok {
 		t.Skip("no replay file for this test")
 	}
-	if f := check(c); f != nil {
+	if f := Guard(func() *Failure { return check(c) }); f != nil {
 		if isKnown(property, f.Sig) {
 			fmt.Printf("VERIF-KNOWN property=%s sig=%s\n", property, f.Sig)
 			return
